@@ -52,9 +52,9 @@ CLAIMED = {
    text="Operator dispatch of + - * / checked on 8 concrete witness pairs (symbolic f64 arithmetic does not terminate in CBMC); bounded.",
    note="Bounded stand-in. Not covered: precedence/associativity, column independence (Display for Expr), %."),
 
- "C05": dict(engine="V", ref="5/C05",
-   technique="Verus contract (ensures + loop invariant) on the real parse_order_by extracted verbatim each run",
-   text="On the real parse_order_by: key list and direction list have equal length on every successful parse, positional keys are "
+ "C05": dict(engine="V+F+K", ref="5/C05",
+   technique="Kani on the verbatim bodies of Criteria::cmp / cmp_at (shim receiver types), on the positional / DESC arms of parse_order_by and on is_numeric_field over the whole Field enum; Verus contract on the real parse_order_by",
+   text="Criteria::cmp is proved to be the lexicographic order over <= 3 keys and cmp_at to dispatch numeric / date / string keys and to reverse for desc, for all per-key outcomes; every documented integer column is proved numeric, date columns chronological, text columns string-ordered over the whole Field enum; a positional key k selects column k or is rejected. On the real parse_order_by: key list and direction list have equal length on every successful parse, positional keys are "
         "proved in range before indexing and `desc` without a preceding key is rejected (no underflow), for every token vector.",
    note="Only the ORDER BY clause parser so far. Not covered: that buffered rows come out in Criteria order (TopN/BTreeMap out of reach), "
         "numeric/date key comparison."),
@@ -71,10 +71,18 @@ CLAIMED = {
         "exactly its own length; each rung's multiplier is proved equal to the documented one for all integers n < 2^16 (bounded; "
         "f64 multiplication).",
    note="Multiplier obligations are bounded (n < 65536). Trusted: lower-casing, slicing, str::parse. Not covered: fractional literals, format_filesize."),
+
+ "C09": dict(engine="K+F", ref="5/C09",
+   technique="Kani harnesses on escape_html (real function) and on the format templates of the HTML and flat formatters (format! replaced by concatenation), bounded values",
+   text="escape_html is proved on every single ASCII character (no raw & < >, decodes to itself) and on multi-character witnesses; the cell "
+        "templates of the HTML and tabs/lines/list writers (extracted from the format! calls each run) and the frame literals are "
+        "checked on concrete values. All bounded, labelled as such.",
+   note="format! itself does not terminate in CBMC (even concrete), so its semantics for plain {} templates is assumed. Not covered: JSON/CSV "
+        "encoding (serde_json, csv), row-separator protocol in the searcher paths."),
 }
 PENDING = "no contract-based check built yet in this revision (planned: DESIGN.md section 5)"
 NOT_APPLICABLE = {
- "C09": PENDING,
+ 
  "C11": PENDING, "C16": PENDING,
  "C08": "GROUP BY partitioning lives in iterator-adapter closures over HashMap<Vec<String>, Vec<HashMap<String,String>>>: Verus rejects the adapters, CBMC does not finish two string-keyed rows; no closed fragment carries the partition property (DESIGN.md section 6)",
  "C17": "fault isolation is about read_dir/open failures, closed pipes and the process exit status (OS behaviour); the only closed fragment (error_count -> status) is proved under C10 and does not decide C17",
